@@ -79,6 +79,16 @@ def run(tier, seed, replay=None):
                           "pre": ([{"db": 0, "key": "bighash", "kind": "hash"}] if pre else []),
                           "entries": [{"id": 1, "db": 0, "key": "bighash", "kind": "hash", "chunk": True, "n": 3, "elem": 9 * 1024 * 1024, "type": 4, "expire": exp}],
                           "abstract": {"route": "chunks", "policy": pol, "pre": "same" if pre else "absent", "expire": exp}})
+        # rump's element-by-element route (utils.RestoreBigkey) called for a sequence of keys on one connection that remembers its database:
+        # db 1, db 0 (this one may already exist on the target), db 1 again - under every policy, the third key belongs into db 1
+        for j, (pol, pre) in enumerate([(p2, pr) for p2 in ("ignore", "rewrite", "none") for pr in (True, False)]):
+            kinds = ["list", "hash", "set", "zset", "string"]
+            cases.append({"id": 910000 + j, "cfg": {"mode": "bigkey", "parallel": 1, "tdb": -1, "key_exists": pol, "target_replace": True, "target": {"version": "5.0.7"}, "sched": "free"},
+                          "pre": ([{"db": 0, "key": "bk:1", "kind": "string"}] if pre else []),
+                          "entries": [{"id": 1, "db": 1, "key": "bk:0", "kind": kinds[j % 5], "n": 4, "elem": 8, "type": -1},
+                                      {"id": 2, "db": 0, "key": "bk:1", "kind": kinds[(j + 1) % 5], "n": 4, "elem": 8, "type": -1},
+                                      {"id": 3, "db": 1, "key": "bk:2", "kind": kinds[(j + 2) % 5], "n": 4, "elem": 8, "type": -1}],
+                          "abstract": {"route": "rump-bigkey", "policy": pol, "pre": "other" if pre else "absent", "expire": 0}})
         abstract = {c["id"]: c.pop("abstract") for c in cases}
 
         def sig(ev, c, ent, evs):
